@@ -8,12 +8,24 @@
     tokens, and never returns a layout token;
   * `C09_next_ignores_layout_prefix`: `token_eof_ok` gives the same token and leaves the same
     stream whether or not layout tokens precede it in the buffer.
-  The generic theorem for every client program (the parser cannot observe layout at all) is
-  the abstraction theorem of DESIGN §6 C09; until it lands that clause is carried by the
-  correspondence and the oracle (named in the evidence).
+  Second layer (every client program, `Theorems/Layout.lean`):
+  * `C09_layout_sim`: if a relation `R` on stream states is a bisimulation for the stream
+    interface (no operation can tell related states apart: same tokens, same doc text,
+    related successors; locations free), then EVERY client program run from `R`-related
+    streams and agreeing parser states gives the same result, the same callbacks with the same
+    payloads in the same order (only resolved locations may differ), the same block stack and
+    counters, and `R`-related streams at the end;
+  * `C09_parser_layout`: the instance at the parser model;
+  * `C09_prelexed_locations_irrelevant`: a concrete bisimulation (`rbnd_bisim`): pre-lexed
+    token streams that differ only in the locations of their tokens.
+  What remains carried by the correspondence `parse[relayout]` and the oracle `relayout`: that
+  two TEXTS with the same significant tokens give bisimilar lexer-backed streams (the lexer
+  side of the statement).
 -/
 import CxxModel.TokStream
 import CxxModel.Tables
+import CxxModel.Theorems.Layout
+import CxxModel.Parser.Decl
 namespace Cxx
 
 theorem C09_discard_sets_are_layout :
@@ -47,5 +59,36 @@ theorem C09_next_ignores_layout_prefix (cfg : LexCfg) (disc : String → Bool) (
     (layout : List Tok) (h : ∀ t ∈ layout, disc t.type = true) :
     nextTok cfg disc (fuel + 1) { b with tokbuf := layout ++ b.tokbuf } = nextTok cfg disc (fuel + 1) b := by
   simp only [nextTok, C09_popSignificant_skips_layout disc layout b.tokbuf h]
+
+
+theorem C09_layout_sim (env : Env) (R : Buf → Buf → Prop) (hR : StreamBisim env R) {α : Type} (p : Prog α)
+    (w1 w2 : World) (h : LSim R w1 w2) : LOut R (interp env p w1) (interp env p w2) :=
+  layout_sim env R hR p w1 w2 h
+
+theorem C09_parser_layout (env : Env) (R : Buf → Buf → Prop) (hR : StreamBisim env R) (F D : Nat)
+    (w1 w2 : World) (h : LSim R w1 w2) :
+    LOut R (interp env (P.parserProg F D) w1) (interp env (P.parserProg F D) w2) :=
+  layout_sim env R hR _ w1 w2 h
+
+/-- the delivered callbacks agree up to the resolved location, in particular there are equally many -/
+theorem C09_same_callbacks (env : Env) (R : Buf → Buf → Prop) (hR : StreamBisim env R) (F D : Nat)
+    (w1 w2 : World) (h : LSim R w1 w2) :
+    (interp env (P.parserProg F D) w1).1.events.map Event.noLoc =
+      (interp env (P.parserProg F D) w2).1.events.map Event.noLoc :=
+  (layout_sim env R hR _ w1 w2 h).1.events
+
+theorem C09_prelexed_locations_irrelevant (env : Env) (F D : Nat) (w1 w2 : World) (h : LSim RBnd w1 w2) :
+    LOut RBnd (interp env (P.parserProg F D) w1) (interp env (P.parserProg F D) w2) :=
+  layout_sim env RBnd (rbnd_bisim env) _ w1 w2 h
+
+/-! non-vacuity: two bounded streams holding `int x ;` with different line numbers are related -/
+example : RBnd
+    (boundedBuf [{ type := "int", value := "int", loc := { filename := none, lineno := 1 } },
+                 { type := "NAME", value := "x", loc := { filename := none, lineno := 1 } },
+                 { type := ";", value := ";", loc := { filename := none, lineno := 1 } }])
+    (boundedBuf [{ type := "int", value := "int", loc := { filename := some "f.h", lineno := 7 } },
+                 { type := "NAME", value := "x", loc := { filename := some "f.h", lineno := 9 } },
+                 { type := ";", value := ";", loc := { filename := some "f.h", lineno := 9 } }]) :=
+  ⟨rfl, rfl, .cons ⟨rfl, rfl, rfl⟩ (.cons ⟨rfl, rfl, rfl⟩ (.cons ⟨rfl, rfl, rfl⟩ .nil))⟩
 
 end Cxx
